@@ -137,9 +137,15 @@ class Scheduler(interpose.Listener):
         return self.locks.get(self.dbpath(conn)) is conn
 
     # interpose.Listener ---------------------------------------------------
+    def foreign(self, conn):
+        """A connection to a database outside the directory under test (Deque.reverse and Cache() without a directory work
+        through a temporary cache of their own): not scheduled, not recorded."""
+        p = self.dbpath(conn)
+        return p is not None and self.root is not None and not os.path.abspath(str(p)).startswith(os.path.abspath(str(self.root)))
+
     def sql_before(self, conn, sql, params):
         c = self.me()
-        if c is None:
+        if c is None or self.foreign(conn):
             return
         self.conn_client[id(conn)] = c.cid
         c.pending_conn = id(conn)
@@ -157,7 +163,7 @@ class Scheduler(interpose.Listener):
 
     def sql_after(self, conn, sql, params, rows, error):
         c = self.me()
-        if c is None:
+        if c is None or self.foreign(conn):
             return
         s = sql.lstrip()
         head = s[:6].upper()
